@@ -5,6 +5,7 @@ import gen_cmpchain
 import gen_attrs
 import gen_builder
 import gen_caps
+import gen_fsm
 
 GENERATORS = {
     'enums': (gen_enums.gen, 'EnumTables.v'),
@@ -13,4 +14,5 @@ GENERATORS = {
     'attrs': (gen_attrs.gen, 'AttrRules.v'),
     'builder': (gen_builder.gen, 'BuilderConsts.v'),
     'caps': (gen_caps.gen, 'CapRules.v'),
+    'fsm': (gen_fsm.gen, 'FsmTable.v'),
 }
